@@ -707,8 +707,17 @@ class BinaryOp(Expr):
                 if self.left.type == t or self.right.type == t:
                     operand_type = t
                     break
-        left = operand_type.coerce(self.left.eval())
-        right = operand_type.coerce(self.right.eval())
+        def operand(x):
+            # at run time the operand is converted to the operand type
+            # first (rounded, for an integer type) and that conversion
+            # fails if the converted value does not fit
+            value = operand_type.coerce(x)
+            if not operand_type.can_hold(value):
+                raise OverflowError
+            return value
+
+        left = operand(self.left.eval())
+        right = operand(self.right.eval())
 
         def qbool(x):
             return -1 if x else 0
